@@ -8,6 +8,8 @@ CONSTANTS
  SubjSel = {"ror", "split"}
  Spells = {"dig"}
  Dopts = {"check"}
+ Inits <- InitsMC0
+ NAs <- NAsNone
  MaxOps = 5
  MaxConc = 1
  SameSubject = TRUE
